@@ -5,6 +5,7 @@ package main
 import (
 	"bytes"
 	"context"
+	"crypto/ed25519"
 	"encoding/base64"
 	"encoding/binary"
 	"encoding/hex"
@@ -29,6 +30,8 @@ import (
 	"github.com/AdguardTeam/AdGuardDNS/internal/dnsmsg"
 	"github.com/AdguardTeam/AdGuardDNS/internal/dnsserver"
 	"github.com/AdguardTeam/AdGuardDNS/verifh/hlib"
+	"github.com/ameshkov/dnscrypt/v2"
+	"github.com/ameshkov/dnsstamps"
 	"github.com/miekg/dns"
 	"github.com/quic-go/quic-go"
 )
@@ -369,6 +372,37 @@ var (
 	lTCP = &net.TCPAddr{IP: net.IPv4(127, 0, 0, 1), Port: 53}
 	rTCP = &net.TCPAddr{IP: net.IPv4(192, 0, 2, 99), Port: 40000}
 )
+
+// remotes are the forms a client address takes: IPv4, IPv6, IPv4-mapped IPv6 and
+// link-local IPv6, which sockets (and net/http, as text) report with its zone.
+type remote struct {
+	text  string // as http.Request.RemoteAddr has it
+	ip    net.IP
+	zone  string
+	port  int
+	zoned bool
+}
+
+var remotes = []remote{
+	{"192.0.2.99:40000", net.IPv4(192, 0, 2, 99), "", 40000, false},
+	{"[2001:db8::99]:40000", net.ParseIP("2001:db8::99"), "", 40000, false},
+	{"[fe80::1%eth0]:40000", net.ParseIP("fe80::1"), "eth0", 40000, true},
+	{"[::ffff:192.0.2.7]:53", net.ParseIP("::ffff:192.0.2.7"), "", 53, false},
+	{"[fe80::fc:ff:fe00:1%2]:443", net.ParseIP("fe80::fc:ff:fe00:1"), "2", 443, true},
+	{"192.0.2.99:40000", net.IPv4(192, 0, 2, 99), "", 40000, false},
+}
+
+// curRemote is the client address of the request being served; useRemote
+// installs it for the fake sockets of every transport.
+var curRemote = remotes[0]
+
+func useRemote(k int) {
+	curRemote = remotes[k%len(remotes)]
+	rUDP = &net.UDPAddr{IP: curRemote.ip, Port: curRemote.port, Zone: curRemote.zone}
+	rTCP = &net.TCPAddr{IP: curRemote.ip, Port: curRemote.port, Zone: curRemote.zone}
+}
+
+var remoteTurn int
 
 type fakePacketConn struct {
 	in      []byte
@@ -764,6 +798,12 @@ type sees struct {
 	delivery string
 	// reset: DoQ only, the client reset the stream instead of finishing it.
 	reset bool
+	// remote: the client's address (text); zoned: it carries an IPv6 zone.
+	remote string
+	zoned  bool
+	// emptyOK: DoH only, HTTP 200 without a body (what net/http sends when the
+	// handler returned without writing, e.g. after a recovered panic).
+	emptyOK bool
 }
 
 const (
@@ -859,6 +899,9 @@ func (e *env) run(t string, b []byte, req *dns.Msg, wok bool) (s sees) {
 func (e *env) runInner(t string, b []byte, req *dns.Msg, wok bool) (s sees) {
 	ctx := context.Background()
 	e.h.adv.begin()
+	remoteTurn++
+	useRemote(remoteTurn)
+	s.remote, s.zoned = curRemote.text, curRemote.zoned
 	switch t {
 	case "udp":
 		c := &fakePacketConn{in: b, wok: wok}
@@ -890,12 +933,16 @@ func (e *env) runInner(t string, b []byte, req *dns.Msg, wok bool) (s sees) {
 			r = httptest.NewRequest(http.MethodGet,
 				"https://dns.example/dns-query?dns="+base64.RawURLEncoding.EncodeToString(b), nil)
 		}
-		r.RemoteAddr = "192.0.2.99:40000"
+		r.RemoteAddr = curRemote.text
 		w := httptest.NewRecorder()
 		e.hh.ServeHTTP(w, r)
 		s.status = w.Code
 		if w.Code == http.StatusOK {
-			unpackAll([][]byte{w.Body.Bytes()}, &s)
+			if w.Body.Len() == 0 {
+				s.emptyOK = true
+			} else {
+				unpackAll([][]byte{w.Body.Bytes()}, &s)
+			}
 		}
 	case "doq":
 		ps := streamOf(prefixed(poison))
@@ -1569,13 +1616,28 @@ type caseInfo struct {
 	// of the successive stream.Read calls; TCP/DoT: segment sizes); empty = all
 	// at once, followed by the end of the stream.
 	Delivery string `json:"delivery,omitempty"`
+	// Remote: the client's address as the socket / net/http reports it.
+	Remote string `json:"remote_addr,omitempty"`
 }
 
 // oracle checks one observation against the property statement.  It returns the
 // core of the delivered answer for the cross-transport comparison.
 func oracle(r *hlib.Result, t string, b []byte, req *dns.Msg, o outcome, wok bool, s sees, calls int64) (core string) {
-	ci := caseInfo{Transport: t, WireHex: hex.EncodeToString(b), Outcome: o.String(), WriteOK: wok, Observed: canonSees(s, "-"), Delivery: s.delivery}
+	ci := caseInfo{Transport: t, WireHex: hex.EncodeToString(b), Outcome: o.String(), WriteOK: wok, Observed: canonSees(s, "-"), Delivery: s.delivery, Remote: s.remote}
 	cls := classify(req)
+	if s.emptyOK {
+		// Repaired finding, signature kept armed: httpHandler.remoteAddr handed the
+		// host part of "[fe80::1%eth0]:443" to netutil.ParseIP and panicked; the
+		// recovered panic left the client with an empty HTTP 200.
+		sig, what := "doh-empty-200", t+": HTTP 200 without a body: the handler returned without writing anything (recovered panic?)"
+		if s.zoned {
+			sig, what = "doh-zoned-client-unanswered", fmt.Sprintf("%s: the request of the client %s (an IPv6 link-local address, reported with its zone) "+
+				"got an empty HTTP 200 and no DNS response: httpHandler.remoteAddr panics on the zone, the panic is recovered, nothing is written", t, s.remote)
+		}
+		r.Violate(sig, what, ci)
+
+		return ""
+	}
 	if s.hung {
 		r.Violate("hang-"+t, t+": the accept routine never completed this request (worker died before signalling completion, or deadlock)", ci)
 
@@ -2054,6 +2116,429 @@ func acceptCampaign(r *hlib.Result, m *hlib.Model) {
 
 // jsonRRs renders the records of a JSON answer; jsonWant renders what they must
 // be for rrs: owner, type, class, TTL and the presentation format of the data.
+// firstSeg is the harness's own reading of a rooted URL path: its first element
+// after dropping empty and "." elements and resolving "..".
+func firstSeg(p string) string {
+	var st []string
+	for _, el := range strings.Split(p, "/") {
+		switch el {
+		case "", ".":
+		case "..":
+			if len(st) > 0 {
+				st = st[:len(st)-1]
+			}
+		default:
+			st = append(st, el)
+		}
+	}
+	if len(st) == 0 {
+		return ""
+	}
+
+	return st[0]
+}
+
+// dohFrontCampaign drives the HTTP front end of the wire-format DoH path with
+// whole HTTP requests: URL paths (canonical, with a device id, unclean, the
+// suffix forms isDoH also takes, foreign ones), methods, every shape of the
+// `dns` parameter, bodies, and every form of client address.
+func dohFrontCampaign(o *hlib.Opts, r *hlib.Result, m *hlib.Model, e *env) {
+	rng := o.Rand("dohfront")
+	n := 2500
+	if o.Thorough() {
+		n = 80000
+	}
+	paths := []string{"/dns-query", "/dns-query", "/dns-query", "/dns-query/", "/dns-query/dev1234", "//dns-query", "/./dns-query",
+		"/x/../dns-query", "/dns-query/../dns-query/abc", "/query", "/y", "/-query", "/", "/dns", "/dns-queryx", "/xdns-query", "/DNS-QUERY",
+		"/foo/dns-query", "/dns-query/..", "/../dns-query", "/dns%2Dquery", "/uery/dns-query"}
+	meths := []string{"GET", "GET", "GET", "POST", "POST", "POST", "PUT", "HEAD", "DELETE", "OPTIONS", "PATCH", "get"}
+	var ps []pending
+	for i := 0; i < n; i++ {
+		b, kind := genWire(rng, r)
+		if rng.IntN(4) > 0 {
+			for kind != "wellformed" {
+				b, kind = genWire(rng, r)
+			}
+		}
+		oc := genOutcome(rng)
+		pth, meth := pick(rng, paths), pick(rng, meths)
+		rem := remotes[rng.IntN(len(remotes))]
+		// The dns parameter.
+		good := base64.RawURLEncoding.EncodeToString(b)
+		type dv struct {
+			raw string
+			dec []byte
+			ok  bool
+		}
+		var dns []dv
+		form := "one"
+		switch x := rng.IntN(16); {
+		case x < 9:
+			dns = []dv{{good, b, true}}
+		case x == 9:
+			form = "absent"
+		case x == 10:
+			dns, form = []dv{{good, b, true}, {good, b, true}}, "two"
+		case x == 11:
+			dns, form = []dv{{good + "=", nil, false}}, "padded"
+			if len(b)%3 == 0 {
+				dns, form = []dv{{good + "====", nil, false}}, "padded"
+			}
+		case x == 12:
+			std := base64.RawStdEncoding.EncodeToString(b)
+			dns, form = []dv{{std, b, std == good}}, "std-alphabet"
+		case x == 13:
+			dns, form = []dv{{"", []byte{}, true}}, "empty-value"
+		case x == 14:
+			dns, form = []dv{{"!!!not base64!!!", nil, false}}, "garbage"
+		default:
+			dns, form = []dv{{good[:len(good)/2], nil, false}}, "cut"
+			if dec, err := base64.RawURLEncoding.DecodeString(good[:len(good)/2]); err == nil {
+				dns[0].dec, dns[0].ok = dec, true
+			}
+		}
+		r.Count("dohfront:dns-" + form)
+		q := url.Values{}
+		for _, d := range dns {
+			q.Add("dns", d.raw)
+		}
+		var body []byte
+		if meth == "POST" || rng.IntN(4) == 0 {
+			body = b
+		}
+		req := httptest.NewRequest(strings.ToUpper(meth), "https://dns.example/x", bytes.NewReader(body))
+		req.Method = meth
+		req.URL.Path, req.URL.RawPath, req.URL.RawQuery = pth, "", q.Encode()
+		req.RemoteAddr = rem.text
+		if rng.IntN(2) == 0 {
+			req.Header.Set("Content-Type", pick(rng, []string{dnsserver.MimeTypeDoH, "text/plain", "application/json"}))
+		}
+		w := httptest.NewRecorder()
+		e.h.set(oc)
+		e.h.adv.begin()
+		hung, pv := guard(60*time.Second, func() { e.hh.ServeHTTP(w, req) })
+		if hung {
+			e.reset()
+		}
+		_, damaged := e.h.adv.settle()
+		calls := e.h.calls.Load()
+		ci := map[string]any{"transport": "doh", "method": meth, "path": pth, "query": req.URL.RawQuery, "body_hex": hex.EncodeToString(body),
+			"remote_addr": rem.text, "handler_outcome": oc.String(), "status": w.Code, "body_len": w.Body.Len()}
+		if hung || pv != nil {
+			r.Violate("panic-doh", fmt.Sprintf("doh: the HTTP handler panicked or hung on this request: %v", pv), ci)
+
+			continue
+		}
+		// What reaches Unpack, by the harness's own reading of the request.
+		seg := firstSeg(pth)
+		canonical := seg == "dns-query"
+		foreign := !strings.HasSuffix("/dns-query", seg) && !strings.HasSuffix("/resolve", seg) || seg == ""
+		var front []byte
+		reaches := false
+		switch meth {
+		case "GET":
+			if len(dns) == 1 && dns[0].ok {
+				front, reaches = dns[0].dec, true
+			}
+		case "POST":
+			front, reaches = body, true
+		}
+		t := "dohpost"
+		if meth == "GET" {
+			t = "dohget"
+		}
+		var ss sees
+		ss.status, ss.remote, ss.zoned, ss.damaged = w.Code, rem.text, rem.zoned, damaged
+		if w.Code == http.StatusOK {
+			if w.Body.Len() == 0 {
+				ss.emptyOK = true
+			} else {
+				unpackAll([][]byte{w.Body.Bytes()}, &ss)
+			}
+		}
+		r.Count("dohfront:remote-zoned-" + b2s(rem.zoned))
+		// Oracle.
+		switch {
+		case foreign:
+			r.Count("dohfront:foreign-path")
+			if w.Code != http.StatusNotFound || calls != 0 {
+				r.Violate("doh-foreign-path-served", fmt.Sprintf("doh: a request for %q, which is not a DNS path, gave HTTP %d and %d handler call(s); documented is 404", pth, w.Code, calls), ci)
+			}
+		case canonical && reaches:
+			r.Count("dohfront:served-" + meth)
+			treq := unpackOrNil(front)
+			checkUnpackContract(r, front, treq)
+			oracle(r, t, front, treq, oc, true, ss, calls)
+		case canonical:
+			r.Count("dohfront:bad-request")
+			if w.Code != http.StatusBadRequest || calls != 0 || len(ss.msgs) != 0 {
+				r.Violate("doh-bad-request-served", fmt.Sprintf("doh: %s with dns parameter %q (%s) gave HTTP %d, %d handler call(s); documented is 400", meth, q["dns"], form, w.Code, calls), ci)
+			}
+		default:
+			// A suffix of the well-known path ("/query", "/y"): the code serves it;
+			// only the model comparison and the foreign-answer rule apply.
+			r.Count("dohfront:suffix-path")
+			if reaches {
+				treq := unpackOrNil(front)
+				for _, mm := range ss.msgs {
+					if treq == nil || len(front) >= 2 && mm.Id != binary.BigEndian.Uint16(front) {
+						r.Violate("foreign-id-doh", "doh: response with another id", ci)
+					}
+				}
+			}
+		}
+		// Model line.
+		var toks []string
+		for _, d := range dns {
+			switch {
+			case !d.ok:
+				toks = append(toks, "bad")
+			case len(d.dec) == 0:
+				toks = append(toks, "-")
+			default:
+				toks = append(toks, hex.EncodeToString(d.dec))
+			}
+		}
+		mo := oc
+		line := fmt.Sprintf("doh 1 %s %s %s %d %s ; %s", hex.EncodeToString([]byte(pth)), meth, b2s(rem.zoned), len(dns), strings.Join(toks, " "),
+			frameArgs(body, unpackOrNil(front), mo))
+		line = strings.Join(strings.Fields(line), " ")
+		parts := make([]string, 0, len(ss.msgs))
+		for _, mm := range ss.msgs {
+			parts = append(parts, canonResp(mm))
+		}
+		real := fmt.Sprintf("%d %d ", w.Code, len(ss.msgs)) + strings.Join(parts, " ")
+		ps = append(ps, pending{line: line, real: real, ci: caseInfo{Transport: "doh-front", WireHex: hex.EncodeToString(front), Outcome: oc.String(), WriteOK: true,
+			Observed: real, Remote: rem.text, Delivery: meth + " " + pth + "?" + req.URL.RawQuery}})
+		r.Case(fmt.Sprintf("%s %s %s %s %s", meth, pth, form, hex.EncodeToString(b), oc), true)
+		r.Traces++
+		if len(ps) > 2000 {
+			flush(r, m, ps)
+			ps = ps[:0]
+		}
+	}
+	flush(r, m, ps)
+}
+
+
+// dnscryptE2ECampaign runs the real DNSCrypt server (ServerDNSCrypt around the
+// ameshkov/dnscrypt library, loopback sockets) and judges what a client
+// decrypts for arbitrary octets sent as an encrypted query: the library's own
+// filter (does not unpack / is a response / not exactly one question => dropped)
+// sits in front of dnsCryptHandler.ServeDNS.
+func dnscryptE2ECampaign(o *hlib.Opts, r *hlib.Result, m *hlib.Model, e *env) {
+	rng := o.Rand("dce2e")
+	n := 150
+	if o.Thorough() {
+		n = 1500
+	}
+	rc, err := dnscrypt.GenerateResolverConfig("example.org", nil)
+	if err != nil {
+		r.Count("dce2e:skipped-setup")
+
+		return
+	}
+	cert, err := rc.CreateCert()
+	if err != nil {
+		r.Count("dce2e:skipped-setup")
+
+		return
+	}
+	priv, _ := dnscrypt.HexDecodeKey(rc.PrivateKey)
+	pk := ed25519.PrivateKey(priv).Public().(ed25519.PublicKey)
+	var s *dnsserver.ServerDNSCrypt
+	for i := 0; i < 30; i++ {
+		s = dnsserver.NewServerDNSCrypt(dnsserver.ConfigDNSCrypt{ConfigBase: dnsserver.ConfigBase{Name: "c01-e2e", Addr: "127.0.0.1:0", Handler: e.h, Disposer: e.h.adv},
+			DNSCryptProviderName: "example.org", DNSCryptResolverCert: cert})
+		if err = s.Start(context.Background()); err == nil {
+			break
+		}
+	}
+	if err != nil {
+		r.Count("dce2e:skipped-no-listener")
+
+		return
+	}
+	defer func() { _ = s.Shutdown(context.Background()) }()
+	uaddr, taddr := s.LocalUDPAddr().String(), s.LocalTCPAddr().String()
+	var ri *dnscrypt.ResolverInfo
+	for i := 0; i < 3 && ri == nil; i++ {
+		cl := &dnscrypt.Client{Net: "udp", Timeout: 3 * time.Second, UDPSize: 4096}
+		ri, err = cl.DialStamp(dnsstamps.ServerStamp{ServerAddrStr: uaddr, ServerPk: pk, ProviderName: "example.org", Proto: dnsstamps.StampProtoTypeDNSCrypt})
+	}
+	if ri == nil {
+		r.Count("dce2e:skipped-no-certificate")
+
+		return
+	}
+	encrypt := func(wire []byte) []byte {
+		q := dnscrypt.EncryptedQuery{EsVersion: ri.ResolverCert.EsVersion, ClientMagic: ri.ResolverCert.ClientMagic, ClientPk: ri.PublicKey}
+		enc, eerr := q.Encrypt(wire, ri.SharedKey)
+		if eerr != nil {
+			return nil
+		}
+
+		return enc
+	}
+	decrypt := func(raw []byte) *dns.Msg {
+		dr := dnscrypt.EncryptedResponse{EsVersion: ri.ResolverCert.EsVersion}
+		plain, derr := dr.Decrypt(raw, ri.SharedKey)
+		if derr != nil {
+			return nil
+		}
+
+		return unpackOrNil(plain)
+	}
+	sentinel := &dns.Msg{}
+	sentinel.SetQuestion("sentinel"+nestedSuffix, dns.TypeA)
+	sentinel.Id = 0x5e47
+	sentinelWire, _ := sentinel.Pack()
+	isSentinel := func(mm *dns.Msg) bool {
+		return len(mm.Question) == 1 && strings.HasSuffix(mm.Question[0].Name, nestedSuffix)
+	}
+	// udp sends the case datagram and then a sentinel query; whatever arrives
+	// before (or shortly after) the sentinel's answer is the case's response.
+	udp := func(enc []byte, patient bool) (msgs []*dns.Msg, garbage int) {
+		c, derr := net.Dial("udp", uaddr)
+		if derr != nil {
+			return nil, 0
+		}
+		defer c.Close()
+		_, _ = c.Write(enc)
+		if patient {
+			_ = c.SetReadDeadline(time.Now().Add(4 * time.Second))
+			buf := make([]byte, 70000)
+			if k, rerr := c.Read(buf); rerr == nil {
+				if mm := decrypt(buf[:k]); mm != nil {
+					msgs = append(msgs, mm)
+				} else {
+					garbage++
+				}
+			}
+		}
+		_, _ = c.Write(encrypt(sentinelWire))
+		seen := false
+		for {
+			wait := 3 * time.Second
+			if seen {
+				wait = 40 * time.Millisecond
+			}
+			_ = c.SetReadDeadline(time.Now().Add(wait))
+			buf := make([]byte, 70000)
+			k, rerr := c.Read(buf)
+			if rerr != nil {
+				return msgs, garbage
+			}
+			mm := decrypt(buf[:k])
+			switch {
+			case mm == nil:
+				garbage++
+			case isSentinel(mm):
+				seen = true
+			default:
+				msgs = append(msgs, mm)
+			}
+		}
+	}
+	tcp := func(enc []byte) (msgs []*dns.Msg, garbage int, status int) {
+		c, derr := net.Dial("tcp", taddr)
+		if derr != nil {
+			return nil, 0, -1
+		}
+		defer c.Close()
+		fr := make([]byte, 2+len(enc))
+		binary.BigEndian.PutUint16(fr, uint16(len(enc)))
+		copy(fr[2:], enc)
+		_, _ = c.Write(fr)
+		// A second frame shows whether the connection is still served.
+		s2 := encrypt(sentinelWire)
+		fr2 := make([]byte, 2+len(s2))
+		binary.BigEndian.PutUint16(fr2, uint16(len(s2)))
+		copy(fr2[2:], s2)
+		_, _ = c.Write(fr2)
+		status = stClosed
+		for {
+			_ = c.SetReadDeadline(time.Now().Add(4 * time.Second))
+			var l [2]byte
+			if _, rerr := io.ReadFull(c, l[:]); rerr != nil {
+				return msgs, garbage, status
+			}
+			raw := make([]byte, binary.BigEndian.Uint16(l[:]))
+			if _, rerr := io.ReadFull(c, raw); rerr != nil {
+				return msgs, garbage + 1, status
+			}
+			mm := decrypt(raw)
+			switch {
+			case mm == nil:
+				garbage++
+			case isSentinel(mm):
+				return msgs, garbage, stOpen
+			default:
+				msgs = append(msgs, mm)
+			}
+		}
+	}
+	var ps []pending
+	for i := 0; i < n; i++ {
+		b, kind := genWire(rng, r)
+		if len(b) > 1200 {
+			continue
+		}
+		oc := genOutcome(rng)
+		if oc.kind == "wrotefailed" {
+			oc = outcome{kind: "wrote", rcode: 0, n: 1}
+		}
+		req := unpackOrNil(b)
+		libDrops := req == nil || req.Response || len(req.Question) != 1
+		enc := encrypt(b)
+		if enc == nil {
+			continue
+		}
+		for _, t := range []string{"dcudp", "dctcp"} {
+			e.h.set(oc)
+			e.h.adv.begin()
+			var ss sees
+			if t == "dcudp" {
+				ss.status = stNone
+				ss.msgs, ss.garbage = udp(enc, false)
+				if !libDrops && len(ss.msgs) == 0 {
+					// An answer is due: ask again, patiently, before judging.
+					e.h.set(oc)
+					ss.msgs, ss.garbage = udp(enc, true)
+				}
+			} else {
+				ss.msgs, ss.garbage, ss.status = tcp(enc)
+			}
+			_, ss.damaged = e.h.adv.settle()
+			calls := e.h.calls.Load()
+			ss.remote = "127.0.0.1"
+			r.Count("dce2e:" + t + ":" + map[bool]string{true: "library-drops", false: "reaches-handler"}[libDrops])
+			r.Count("dce2e:wire-" + kind)
+			ci := caseInfo{Transport: t + " (end to end)", WireHex: hex.EncodeToString(b), Outcome: oc.String(), WriteOK: true, Observed: canonShort(ss)}
+			if libDrops {
+				if len(ss.msgs) != 0 || calls != 0 || ss.garbage != 0 {
+					r.Violate("dnscrypt-unacceptable-answered", fmt.Sprintf("%s end to end: octets that do not decode, a response, or a message without exactly one question elicited %d message(s), %d handler call(s)",
+						t, len(ss.msgs), calls), ci)
+				}
+				for _, mm := range ss.msgs {
+					if len(b) >= 2 && mm.Id != binary.BigEndian.Uint16(b) {
+						r.Violate("foreign-id-"+t, t+" end to end: response with another id", ci)
+					}
+				}
+			} else {
+				oracle(r, t, b, req, oc, true, ss, calls)
+			}
+			real := strings.TrimSpace(canonShort(ss))
+			real = strings.TrimSpace(strings.TrimPrefix(real, "/"))
+			ps = append(ps, pending{line: fmt.Sprintf("dce2e %s %s", t, frameArgs(b, req, oc)), real: real, ci: ci})
+			r.Traces++
+		}
+		r.Case("dce2e "+hex.EncodeToString(b)+" "+oc.String(), true)
+	}
+	flush(r, m, ps)
+}
+
+
 func jsonRRs(as []dnsserver.JSONAnswer) string {
 	parts := make([]string, 0, len(as))
 	for _, a := range as {
@@ -2096,8 +2581,10 @@ func jsonCampaign(o *hlib.Opts, r *hlib.Result, m *hlib.Model, e *env) {
 			}
 		}
 		typ := pick(rng, []string{"", "", "", "A", "A", "aaaa", "AAAA", "28", "0", "65535", "ANY", "txt", "1", "16", "255",
-			"65536", "-1", "NOPE", "TYPE99"})
-		qc := pick(rng, []string{"", "", "", "", "", "IN", "in", "ch", "1", "255", "0", "65535", "70000", "XX"})
+			"65536", "-1", "NOPE", "TYPE99",
+			// unusual spellings of numbers: decimal only, leading zeros allowed, nothing else
+			"010", "0028", "00001", "065535", "0x1c", "0X10", "0b11", "0o17", "1_0", "+1", " 1", "1 ", "1e1", "1.0", "\u0661"})
+		qc := pick(rng, []string{"", "", "", "", "", "IN", "in", "ch", "1", "255", "0", "65535", "70000", "XX", "01", "0x1", "003", "1_"})
 		bp := []string{"", "", "", "", "", "", "1", "0", "true", "false", "True", "False", "1", "0", "yes", "TRUE"}
 		cd, do, sde := pick(rng, bp), pick(rng, bp), pick(rng, bp)
 		oc := genOutcome(rng)
@@ -2118,8 +2605,21 @@ func jsonCampaign(o *hlib.Opts, r *hlib.Result, m *hlib.Model, e *env) {
 		if ct {
 			q.Set("ct", dnsserver.MimeTypeDoH)
 		}
-		req := httptest.NewRequest(http.MethodGet, "https://dns.example/resolve?"+q.Encode(), nil)
-		req.RemoteAddr = "192.0.2.99:40000"
+		// The request around the parameters: path (canonical, unclean, with a
+		// trailing element, a suffix form, foreign), method, client address.
+		pth, meth := "/resolve", http.MethodGet
+		rem := remotes[rng.IntN(len(remotes))]
+		if !ct && rng.IntN(3) == 0 {
+			pth = pick(rng, []string{"/resolve/", "//resolve", "/resolve/x", "/./resolve", "/solve", "/e", "/resolved", "/RESOLVE", "/x/../resolve"})
+			meth = pick(rng, []string{"GET", "POST", "PUT", "HEAD"})
+		}
+		req := httptest.NewRequest(meth, "https://dns.example/x", nil)
+		req.URL.Path, req.URL.RawQuery = pth, q.Encode()
+		req.RemoteAddr = rem.text
+		jseg := firstSeg(pth)
+		jsonForeign := !strings.HasSuffix("/resolve", jseg)
+		jsonQuirk := !jsonForeign && jseg != "resolve"
+		r.Count("json:path-" + map[bool]string{true: "foreign", false: map[bool]string{true: "suffix", false: "canonical"}[jsonQuirk]}[jsonForeign])
 		w := httptest.NewRecorder()
 		e.h.set(oc)
 		e.h.adv.begin()
@@ -2129,7 +2629,16 @@ func jsonCampaign(o *hlib.Opts, r *hlib.Result, m *hlib.Model, e *env) {
 			e.reset()
 		}
 		nDisp, damaged := e.h.adv.settle()
-		ci := map[string]any{"transport": "dohjson", "url": req.URL.String(), "handler_outcome": oc.String(), "status": w.Code}
+		ci := map[string]any{"transport": "dohjson", "method": meth, "url": req.URL.String(), "remote_addr": rem.text, "handler_outcome": oc.String(), "status": w.Code}
+		if w.Code == http.StatusOK && w.Body.Len() == 0 {
+			sig := "doh-empty-200"
+			if rem.zoned {
+				sig = "doh-zoned-client-unanswered"
+			}
+			r.Violate(sig, fmt.Sprintf("JSON API: the request of the client %s got an empty HTTP 200: the handler returned without writing (recovered panic in httpHandler.remoteAddr on a zoned address?)", rem.text), ci)
+
+			continue
+		}
 		if damaged != "" {
 			r.Violate("concurrent-response-damaged-dohjson", "JSON API: serving this request with the Disposer's pools shared (production set-up): "+damaged+
 				" - a response was disposed of twice or written to after its disposal", ci)
@@ -2197,6 +2706,10 @@ func jsonCampaign(o *hlib.Opts, r *hlib.Result, m *hlib.Model, e *env) {
 			r.Count("json:wire-answer")
 		}
 		line := fmt.Sprintf("json %s %d %s %s %s %s %s %s %s %s", b2s(ct), id, b2s(nameBad), hexName(fq), tTok, cTok, cdTok, doTok, sdeTok, oc)
+		viaReq := !ct && (pth != "/resolve" || meth != http.MethodGet || rem.zoned)
+		if viaReq {
+			line = fmt.Sprintf("jsonreq 1 %s %s %d %s %s %s %s %s %s %s %s", hex.EncodeToString([]byte(pth)), b2s(rem.zoned), id, b2s(nameBad), hexName(fq), tTok, cTok, cdTok, doTok, sdeTok, oc)
+		}
 		if real != "" {
 			// Rendered above.
 		} else if w.Code == http.StatusOK {
@@ -2214,8 +2727,25 @@ func jsonCampaign(o *hlib.Opts, r *hlib.Result, m *hlib.Model, e *env) {
 		} else {
 			real = fmt.Sprintf("%d 0 ", w.Code)
 		}
-		real += fmt.Sprintf(" d%d", nDisp)
+		if !viaReq {
+			real += fmt.Sprintf(" d%d", nDisp)
+		}
 		ps = append(ps, jp{line: line, real: real, ci: ci})
+		if jsonForeign {
+			if w.Code != http.StatusNotFound || e.h.calls.Load() != 0 {
+				r.Violate("doh-foreign-path-served", fmt.Sprintf("JSON API: a request for %q, which is not a DNS path, gave HTTP %d; documented is 404", pth, w.Code), ci)
+			}
+			r.Case(line, true)
+			r.Traces++
+
+			continue
+		}
+		if jsonQuirk {
+			r.Case(line, true)
+			r.Traces++
+
+			continue
+		}
 		// Oracle.
 		calls := e.h.calls.Load()
 		r.Count(fmt.Sprintf("json:http%d", w.Code))
@@ -3045,7 +3575,10 @@ func main() {
 		"DoQ streams must be finished by the server; every DoQ stream reaches the real reader as a script of stream.Read results (cut at the framing boundaries, at random or octet by octet, empty reads; " +
 		"FIN next to the last data, in a Read of its own, no FIN before the read deadline, or a reset) and TCP/DoT streams arrive in segments that ignore the framing - the answer must not depend on it; " +
 		"queries padded to the sizes around every read buffer (511..513, 1232, 4096, 16384, 65531..65535 octets) go through every transport, and the DoQ reader is compared with the model's readAll on explicit Read scripts, " +
-		"also at the size boundary of its buffer with every ending; the JSON API is driven in both encodings (JSON and ct=application/dns-message); " +
+		"also at the size boundary of its buffer with every ending; the JSON API is driven in both encodings (JSON and ct=application/dns-message), with unusual spellings of numbers, unclean/suffix/foreign paths and every method; " +
+		"whole HTTP requests go through the real ServeHTTP (URL paths canonical, with a device id, unclean, suffix forms, foreign; methods; the dns parameter absent, repeated, padded, in the standard alphabet, empty, cut, garbage; bodies) and are compared with the model's front end and judged (404 / 400 / served like the octets alone); " +
+		"the client's address takes every form on every transport (IPv4, IPv6, IPv4-mapped, link-local IPv6 with its zone - as a net.Addr of the fake sockets and as the text net/http reports); " +
+		"DNSCrypt is also driven end to end (real ServerDNSCrypt and ameshkov/dnscrypt library on loopback sockets, arbitrary octets sent as encrypted queries over UDP and TCP) and compared with the model including the library's own filter; " +
 		"byte-buffer adversary: with GOMAXPROCS(1) a concurrent client's request is served inside the handler and inside the socket write of the request under test, " +
 		"so a pooled request/response buffer released before its last use is overwritten (foreign id/question/garbled frame) or seen recycled in flight; " +
 		"a case is non-trivial unless it is a well-formed accepted query answered normally; distinct = distinct (wire, outcome)"
@@ -3061,6 +3594,8 @@ func main() {
 	wireCampaign(o, r, m, e)
 	doqDeliveryCampaign(o, r, m, e)
 	jsonCampaign(o, r, m, e)
+	dohFrontCampaign(o, r, m, e)
+	dnscryptE2ECampaign(o, r, m, e)
 	quicFrameCampaign(o, r, m, e)
 	pipelineCampaign(o, r, e)
 	connCampaign(o, r, m, e)
